@@ -192,16 +192,30 @@ def check(base_name, data, mode, arg):
             callee = ("builtins" if exp["callee"][0] in BUILTIN_FAMILY else exp["callee"][0], exp["callee"][1])
             inj_imp = ("import", callee[0], callee[1])
             inj_call = ("invoke", callee, strip_ids(canon(exp["args"])), strip_ids(canon({})))
-            if exp["where"] == "first":
-                # GLOBAL and the call both precede everything the base does
-                want = [inj_imp, inj_call] + e_base
-            else:
-                k = "global-position/" + mode
-                want = e_base + [inj_imp, inj_call]
-                if mode.split("/")[0] != "append":
-                    want = [inj_imp] + e_base + [inj_call]      # documented: GLOBAL is set up first, REDUCE runs last
-            if e_new != want:
-                return "%s: events %r, expected %r" % (which, e_new, want)
+            calls = [i for i, x in enumerate(e_new) if x == inj_call]
+            n_base_calls = sum(1 for x in e_base if x == inj_call)
+            if len(calls) != n_base_calls + 1:
+                return "%s: injected call performed %d time(s), expected exactly once (events %r)" % (which, len(calls) - n_base_calls, e_new)
+            # remove the injected call (first / last occurrence according to the mode) and one resolution of its callee that
+            # precedes it; what remains must be the base pickle's events, unchanged and in order
+            ci = calls[0] if exp["where"] == "first" else calls[-1]
+            rest = e_new[:ci] + e_new[ci + 1:]
+            imps = [i for i, x in enumerate(rest) if x == inj_imp and i < ci]
+            if not imps:
+                return "%s: the injected callee was never resolved before its call" % which
+            rest_first = rest[:imps[0]] + rest[imps[0] + 1:]
+            rest_last = rest[:imps[-1]] + rest[imps[-1] + 1:]
+            if e_base not in (rest_first, rest_last):
+                return "%s: base events not preserved: %r, base %r" % (which, e_new, e_base)
+            # position of the call relative to everything the base pickle does
+            base_effects = [x for x in e_base if x[0] != "import"]
+            if base_effects:
+                before_call = [x for x in e_new[:ci] if x[0] != "import"]
+                after_call = [x for x in e_new[ci + 1:] if x[0] != "import"]
+                if exp["where"] == "first" and before_call:
+                    return "%s: run-first call happens after base effects %r" % (which, before_call)
+                if exp["where"] == "last" and after_call:
+                    return "%s: run-last call happens before base effects %r" % (which, after_call)
         if exp["result"] == "base":
             if strip_ids(canon(v)) != strip_ids(canon(bv)):
                 return "%s: result %r, expected the base object %r" % (which, strip_ids(canon(v)), strip_ids(canon(bv)))
